@@ -33,9 +33,17 @@ own("C07 C10", "SEncode SHex SMarshal SDecode SUnmarshal SDecodeHex SErrClasses 
 own("C08 C10", "EHashToGroup EEncodeToGroup")
 own("C09 C10", "SHashToScalar")
 own("C18", "SRandom")
+own("C15", "MemCall MemProbe")
+own("C16", "RaceReport Adopt")
+# in the concurrency check every disagreement is a call that did not return its sequential result
+CONCURRENT_PROPS = {"C16"}
 
 # trace-validated properties: harness generator name == property id
-TRACE_PROPS = {"C01", "C02", "C03", "C04", "C05", "C06", "C07", "C08", "C09", "C10", "C13", "C14", "C18"}
+TRACE_PROPS = {"C01", "C02", "C03", "C04", "C05", "C06", "C07", "C08", "C09", "C10", "C13", "C14", "C15", "C16", "C18"}
+# which trace specification validates the property's traces
+TRACE_SPEC = {"C15": ("TraceMem.tla", "TraceMem.cfg")}
+# properties whose histories can be re-executed call by call from a replay file
+SCENARIO_PROPS = TRACE_PROPS - {"C15", "C16"}
 
 # toy-scale model-checking configurations per property: (module, cfg, quick?, extra args)
 MC = {}
@@ -97,12 +105,12 @@ RE_END = re.compile(r'<<\s*"TRACE-END",\s*(\d+),\s*(\d+),\s*(\d+)\s*>>')
 RE_STATES = re.compile(r"(\d+) states generated, (\d+) distinct states found")
 
 
-def validate_one(specdir, trace, work, timeout):
+def validate_one(specdir, trace, work, timeout, module="TraceSecp.tla", cfg="TraceSecp.cfg"):
     md = tempfile.mkdtemp(prefix="md_", dir=work)
     env = dict(os.environ, VERIF_TRACE=trace)
     t0 = time.time()
     try:
-        r = subprocess.run(tlc_cmd("TraceSecp.tla", "TraceSecp.cfg", md), cwd=specdir, env=env,
+        r = subprocess.run(tlc_cmd(module, cfg, md), cwd=specdir, env=env,
                            capture_output=True, text=True, timeout=timeout)
         out = r.stdout + r.stderr
         rc = r.returncode
@@ -178,7 +186,7 @@ def history_of(lines, lineno):
     """Header + the history (from its Reset) containing 1-based trace line `lineno`."""
     i = lineno - 1
     start = i
-    while start > 1 and '"op":"Reset"' not in lines[start][:40]:
+    while start > 1 and '"op":"Reset"' not in lines[start][:40] and '"op":"MemReset"' not in lines[start][:40] and '"op":"Adopt"' not in lines[start][:40]:
         start -= 1
     return [lines[0]] + lines[start:i + 1]
 
@@ -226,7 +234,7 @@ def check_trace_property(prop, tier, seed, work, replay=None, scale=1.0):
     os.makedirs(tdir)
     if replay:
         rp = json.load(open(replay))
-        if rp.get("scenario"):
+        if rp.get("scenario") and prop in SCENARIO_PROPS:
             binary, accessor = build_harness(work)
             sc = os.path.join(work, "scenario.ndjson")
             open(sc, "w").write("\n".join(rp["history"]) + "\n")
@@ -239,19 +247,41 @@ def check_trace_property(prop, tier, seed, work, replay=None, scale=1.0):
             open(f, "w").write("\n".join(rp["history"]) + "\n")
             summary = {"events": len(rp["history"]) - 1, "histories": 1, "accessor": True, "files": [f], "classes": {}}
     else:
-        binary, accessor = build_harness(work)
+        race = prop in CONCURRENT_PROPS
+        binary, accessor = build_harness(work, race=race)
         cmd = [binary, "-prop", prop, "-out", tdir, "-seed", str(seed), "-tier", tier, "-shards", str(NCPU * (4 if tier == "thorough" else 1)), "-scale", str(scale)]
-        r = subprocess.run(cmd, capture_output=True, text=True, env=GOENV, timeout=3600)
-        if r.returncode != 0:
+        env = dict(GOENV)
+        if race:
+            env["GORACE"] = "halt_on_error=0 log_path=%s" % os.path.join(work, "race")
+        r = subprocess.run(cmd, capture_output=True, text=True, env=env, timeout=3600)
+        if r.returncode not in (0, 66) or not r.stdout.strip():
             raise Inconclusive("harness failed (rc=%d): %s" % (r.returncode, (r.stderr or r.stdout)[-3000:]))
         summary = json.loads(r.stdout.strip().splitlines()[-1])
+        if race:
+            reports = []
+            for rf in sorted(glob.glob(os.path.join(work, "race.*"))):
+                txt = open(rf, errors="replace").read()
+                reports += [b for b in txt.split("==================") if "DATA RACE" in b]
+            summary["race_reports"] = len(reports)
+            if reports and summary["files"]:
+                # a race report becomes an event of the first trace: the specification has no such action
+                f0 = summary["files"][0]
+                ls = read_lines(f0)
+                last = json.loads(ls[-1])
+                keep = os.path.join(VERIF, "replays", "%s_%s_%d_race.txt" % (prop, tier, seed))
+                os.makedirs(os.path.dirname(keep), exist_ok=True)
+                open(keep, "w").write("\n==================\n".join(reports[:20]))
+                ev = {"op": "RaceReport", "count": len(reports), "where": [l.strip() for l in reports[0].splitlines() if ".go:" in l][:6], "report_file": keep, "obs": last["obs"]}
+                open(f0, "a").write(json.dumps(ev) + "\n")
+                summary["events"] += 1
     files = summary["files"]
     log("  harness: %d events in %d histories, %d trace files, accessor=%s (%.1fs)" % (summary["events"], summary["histories"], len(files), summary["accessor"], time.time() - t0))
 
     timeout = 3000 if tier == "thorough" else 900
     results = []
     with concurrent.futures.ThreadPoolExecutor(max_workers=NCPU) as ex:
-        for res in ex.map(lambda f: validate_one(specdir, f, work, timeout), files):
+        tmod, tcfg = TRACE_SPEC.get(prop, ("TraceSecp.tla", "TraceSecp.cfg"))
+        for res in ex.map(lambda f: validate_one(specdir, f, work, timeout, tmod, tcfg), files):
             results.append(res)
 
     findings = load_findings()
